@@ -125,7 +125,7 @@ func Try(a app.App, ctx app.IOContext) (err error) {
 				Lock:        nil,    // lock is unsupported
 				Wait:        nil,    // wait is unsupported
 			}); err != nil {
-				parentScope.AppendError(err)
+				parentScope.BaseContextScope().AppendError(err)
 				return
 			}
 		}
@@ -146,7 +146,7 @@ func Try(a app.App, ctx app.IOContext) (err error) {
 				Lock:        nil,    // lock is unsupported
 				Wait:        nil,    // wait is unsupported
 			}); err != nil {
-				parentScope.AppendError(err)
+				parentScope.BaseContextScope().AppendError(err)
 				return
 			}
 		}
@@ -167,7 +167,7 @@ func Try(a app.App, ctx app.IOContext) (err error) {
 				Lock:        nil,    // lock is unsupported
 				Wait:        nil,    // wait is unsupported
 			}); err != nil {
-				parentScope.AppendError(err)
+				parentScope.BaseContextScope().AppendError(err)
 				return
 			}
 		}
